@@ -118,11 +118,23 @@ def run_history(args):
     tp = os.path.join(workdir, "t%d.txt" % idx)
     with open(sp, "w") as f:
         f.write("\n".join(ops) + "\n")
-    p = common.run([k2, arch, str(flags), sp], env=common.lib_env(), timeout=600)
-    crashed = p.returncode != 0
+    try:
+        p = common.run([k2, arch, str(flags), sp], env=common.lib_env(), timeout=90)
+        crashed = p.returncode != 0
+        out, err = p.stdout, p.stderr
+    except Exception as ex:   # a hang inside the library is a failure of the property, not of the check
+        crashed = True
+        out = (getattr(ex, "stdout", None) or "")
+        if isinstance(out, bytes):
+            out = out.decode(errors="replace")
+        err = "harness did not terminate within 90 s (hang)"
     with open(tp, "w") as f:
-        f.write(p.stdout)
-    lines = p.stdout.splitlines()
+        f.write(out)
+    lines = [l for l in out.splitlines() if " | " in l or l.startswith("#")]
+    class P: pass
+    p = P(); p.stderr = err
+    with open(tp, "w") as f:
+        f.write("\n".join(lines) + "\n")
     d = common.run([drv, tp], timeout=600)
     summ = [l for l in d.stdout.splitlines() if l.startswith("SUMMARY")]
     mism = [l for l in d.stdout.splitlines() if l.startswith("MISMATCH") or l.startswith("CONTRACT")]
